@@ -89,6 +89,16 @@ class Server:
         time.sleep(0.02)   # the shim re-reads the file every 5 ms of real time
         return True
 
+    def advance_clock_to(self, unix_seconds):
+        """move the server's clocks forward to the given wall-clock time (never backwards); False when unavailable"""
+        if not self.shift_path:
+            return False
+        cur = int(open(self.shift_path).read().strip() or 0)
+        delta = int(unix_seconds - (time.time() + cur))
+        if delta <= 0:
+            return True
+        return self.advance_clock(delta)
+
     # ---- observations
     def alive(self):
         return self.proc.poll() is None
